@@ -233,7 +233,7 @@ class Check:
                 return ("rejected", int(states[-1]), out)   # state k = after consuming line k-1 => failing line k-1 ... handled by caller
         raise Machinery("trace validation of %s did not produce a verdict (rc=%s):\n%s" % (module, p.returncode, tail(out, 60)))
 
-    def validate(self, module, trace, cfg=None, sig=None, max_rej=6, timeout=3600, sample=3, env_extra=None, inv_offset=1):
+    def validate(self, module, trace, cfg=None, sig=None, max_rej=6, timeout=3600, sample=3, env_extra=None, inv_offset=1, label=None):
         """Validate a (multi-)trace file. Records accepted trace count and rejections."""
         lines = open(trace).read().splitlines()
         if not lines:
@@ -259,7 +259,7 @@ class Check:
                 tl = [x for x in cur if ('"tr":%s,' % trid) in x or ('"tr":%s}' % trid) in x]
             idx = tl.index(cur[n - 1]) + 1
             os.makedirs(os.path.join(ROOT, "replays"), exist_ok=True)
-            rp = os.path.join(ROOT, "replays", "%s-seed%d-%s-tr%s.ndjson" % (self.prop, self.seed, module, trid))
+            rp = os.path.join(ROOT, "replays", "%s-seed%d-%s-tr%s.ndjson" % (self.prop, self.seed, label or module, trid))
             with open(rp, "w") as f:
                 f.write("\n".join(tl) + "\n")
             s = sig(bad) if sig else bad.get("e", "?")
